@@ -446,25 +446,83 @@ func runKeyClass(c *core.Ctx) {
 	} else {
 		c.CountFuncs(3)
 		props := []string{"C04", "C05"}
-		// which classes reach the store?
+		// which classes reach the store? Read along every way from an exported method down to the
+		// insertion helper: on each level (the method, the helpers in between) the event classes that can
+		// arrive at the next call; a class is stored through a way when no level excludes it
+		classesReaching := func(m *ssa.Function) (an.Set, int, []string) {
+			out := an.Empty()
+			nOcc := 0
+			var sites []string
+			an.Region(m, func(g *ssa.Function) bool { return sameFunc(g, a.ins) }, func(o an.Occ) {
+				call, ok := o.In.(*ssa.Call)
+				if !ok {
+					return
+				}
+				if sc := an.StaticCallee(&call.Call); sc == nil || !sameFunc(sc, a.ins) {
+					return
+				}
+				nOcc++
+				type level struct {
+					fn *ssa.Function
+					b  *ssa.BasicBlock
+				}
+				var levels []level
+				cur := m
+				for _, cs := range o.Chain {
+					levels = append(levels, level{cur, cs.Block()})
+					cur = an.StaticCallee(&cs.Call)
+				}
+				levels = append(levels, level{call.Parent(), call.Block()})
+				way := an.Full()
+				for _, lv := range levels {
+					subj := eventTypeSubject(lv.fn)
+					if subj == "" {
+						continue
+					}
+					set, n, okSet := an.ConstFrame(subj).ReachSet(lv.fn, lv.b, nil, nil)
+					c.CountPaths(n)
+					if okSet {
+						way = way.Intersect(set)
+					}
+				}
+				if way.Contains(cls["Ephemeral"]) {
+					sites = append(sites, P.Pos(o.Site().Pos()))
+				}
+				out = out.Union(way)
+			})
+			return out, nOcc, sites
+		}
 		stored := map[string]bool{}
-		subjAdd := eventTypeSubject(a.entry)
 		for _, n := range classNames {
 			stored[n] = true
 		}
-		if subjAdd != "" {
-			fr := an.ConstFrame(subjAdd)
-			s, n, ok := fr.ReachSet(a.entry, a.entryCall.Block(), nil, nil)
-			c.CountPaths(n)
-			if ok {
-				for _, cn := range classNames {
-					stored[cn] = s.Contains(cls[cn])
-				}
+		if set, nOcc, _ := classesReaching(a.entry); nOcc > 0 {
+			for _, cn := range classNames {
+				stored[cn] = set.Contains(cls[cn])
 			}
 		}
 		c.Check(!stored["Ephemeral"], []string{"C04"}, fname(c, a.entry), "class:Ephemeral/stored", P.Pos(a.insCall.Pos()),
 			"ephemeral events never reach the insertion", "ephemeral events reach the insertion helper and are retained and served (Add(kind 20001) then Find([{}]) returns it)")
 		checkKeyFunc(c, a.keyFn, 0, -1, props, stored, cls, classNames)
+		// … and by no other door: every exported method of the cache from which the insertion helper can be
+		// reached (a bulk variant, a restore path) keeps ephemeral events out on the way — by a test of its
+		// own, or because the test sits in what it shares with Add
+		for _, m := range P.ModFuncs {
+			if recvTypeName(m) != "EventCache" || m.Parent() != nil || m == a.entry {
+				continue
+			}
+			if obj, _ := m.Object().(*types.Func); obj == nil || !obj.Exported() {
+				continue
+			}
+			_, nOcc, through := classesReaching(m)
+			if nOcc == 0 {
+				continue
+			}
+			c.CountSites(nOcc)
+			c.Check(len(through) == 0, []string{"C04"}, fname(c, m), "class:Ephemeral/stored", P.Pos(m.Pos()),
+				fmt.Sprintf("ephemeral events never reach the insertion through %s either (%d way(s) down, each behind the class test)", m.Name(), nOcc),
+				"ephemeral events reach the insertion helper through "+m.Name()+" ("+strings.Join(through, ", ")+") without passing the class test that Add applies: they are retained and served")
+		}
 	}
 	// ---- sqlite
 	ins := P.Func(P.Sqlite, "insertEvents")
@@ -473,7 +531,12 @@ func runKeyClass(c *core.Ctx) {
 		// the key function: called (transitively) with the event, returns (int64, bool)
 		for _, fn := range an.RefClosure([]*ssa.Function{ins}, P.InModule) {
 			if fn.Signature.Results().Len() == 2 && eventTypeSubject(fn) != "" {
-				keyFn = fn
+				// (key, ok): an integer and a bool — not any two-result function that looks at an event type
+				r0, ok0 := fn.Signature.Results().At(0).Type().Underlying().(*types.Basic)
+				r1, ok1 := fn.Signature.Results().At(1).Type().Underlying().(*types.Basic)
+				if ok0 && ok1 && r0.Info()&types.IsInteger != 0 && r1.Kind() == types.Bool {
+					keyFn = fn
+				}
 			}
 		}
 	}
@@ -798,6 +861,9 @@ func runAddFlag(c *core.Ctx) {
 		for _, p := range paths {
 			if !an.Feasible(p) {
 				continue
+			}
+			if nilArgPath(add, p.Conds()) {
+				continue // `if event == nil { return false }`: no event, outside what the property speaks about
 			}
 			rv := resolveRet(an.LastInstr(rb).(*ssa.Return).Results[0], p)
 			fr := an.NoSubject()
